@@ -358,8 +358,6 @@ def binop(op: str, a, b) -> Exp:
         if fin:
             qx, qy = Fraction(x), Fraction(y)
             exact = qx + qy if op == '+' else qx - qy if op == '-' else qx * qy
-            if math.isinf(r) and t == 'float':
-                pass
         return _fp_result(t, r, exact, 'IEEE ' + op)
     if op == 'div':
         if nan:
